@@ -39,9 +39,10 @@ import common
 import values
 import evalgen
 import evalref
+from props import c04dispatch
 
 ID = 'C04'
-LEAN_MODULES = ['Yaql.Props.C04', 'Yaql.Props.C04Gen']
+LEAN_MODULES = ['Yaql.Props.C04', 'Yaql.Props.C04Gen'] + c04dispatch.LEAN_MODULES
 REQUIRED_THEOREMS = ['Yaql.Props.C04.' + n for n in (
     'frame frame_root sibling_independence shadowing shadowing_let unknown_null dollar_alias lambda_binds_innermost '
     'lambda_dollar get_argFrame with_numbering closure_lexical closure_lexical_args ucall_eq no_leak_arg no_leak_lambda '
@@ -50,12 +51,15 @@ REQUIRED_THEOREMS = ['Yaql.Props.C04.' + n for n in (
     'def_identity_faithful def_identity_injective select_member_elem member_elementwise memberV_nested host_var_visible '
     'host_var_topmost doc_position_irrelevant dollar_from_any_depth runHost_nil toDict_by_keyword lambda_by_keyword '
     'select_by_keyword noOverload_raises positional_id').split()] + [
-        'Yaql.Props.C04Gen.kwParams_live', 'Yaql.Props.C04Gen.kwParams_total', 'Yaql.Props.C04Gen.kwParams_camel']
+        'Yaql.Props.C04Gen.kwParams_live', 'Yaql.Props.C04Gen.kwParams_total', 'Yaql.Props.C04Gen.kwParams_camel'] + \
+    c04dispatch.REQUIRED_THEOREMS
 
 
 def generate():
     import pyfacts
-    return pyfacts.run(['KwParams'])['KwParams']
+    info = dict(pyfacts.run(['KwParams'])['KwParams'] or {})
+    info.update(c04dispatch.generate() or {})   # Gen/RegistryTypes.lean: the live registry with its real parameter types
+    return info
 
 TRUSTED = ['harness/evalref.py (plain-Python transcription of the language reference, second opinion for every case)',
            'harness/evalgen.py: the renderer AST -> yaql text (every generated text is parsed back by the engine under '
@@ -980,6 +984,8 @@ def run(env, res):
     if env['replay']:
         rp = json.load(open(env['replay']))
         case = rp['case']
+        if case.get('section') == 'dispatch':
+            return c04dispatch.replay(env, res, case)
         ast, doc, env = unwire(case['ast']), dec_doc(case['doc']), dec_env(case.get('host'))
         model = ask_model(drv, [(ast, doc, env)])[0]
         f, info = evaluate_case(ast, doc, model, env)
@@ -991,6 +997,7 @@ def run(env, res):
         return res
     t0 = time.time()
     n_probe = fixed_battery(drv, res)
+    c04dispatch.run_section(env, res, __import__('sys').modules[__name__])
     if tier == 'quick':
         nproc, per, depth = 4, 4000, 4
     else:
@@ -1070,8 +1077,9 @@ LEVEL_NOTE = ('trusted: Lean kernel; the hand-written interpreter Yaql/Model/Eva
               'doc_position_irrelevant); keyword arguments of builtin methods are the positional call that says the same '
               '(toDict_by_keyword, lambda_by_keyword, select_by_keyword; keyword names = the live registry\'s: '
               'C04Gen.kwParams_live).  The builtins inside the evaluator are dispatched by '
-              'name / receiver kind; that this agrees with overload resolution on the real registry is checked by correspondence '
-              'only.  Out of domain (skipped, counted): one-shot iterators read back from variables, raising generators / '
+              'name / receiver kind; that this IS overload resolution on the real registry is proved (props/c04dispatch.py: '
+              'C04DispatchGen.C04Dispatch_partial over the registry regenerated with its real parameter types, C04Dispatch.'
+              'resolve_kinds for all values, C04DispatchEval ties) for the 21 145 call shapes of the dispatch fragment.  Out of domain (skipped, counted): one-shot iterators read back from variables, raising generators / '
               'orderings / contexts stored inside data, operators on lazy sequences.')
 TECHNIQUE = 'Lean 4 proof (induction on fuel over a non-recursive step functional) + three-way differential run of generated programs'
 DESIGN_REF = 'DESIGN.md section 5, C04'
